@@ -96,22 +96,42 @@ def unstate(value: typing.Optional[bytes]) -> Term:
     return loaded if isinstance(loaded, Term) else term(loaded)
 
 
-class Stateless(flow.Actor):
-    """``apply(*x) = app(name, none, x...)`` (per-port ``out(i, .)`` when nout > 1)."""
+def _log(path: typing.Optional[str], record: dict) -> None:
+    """Append one observation line (O_APPEND => safe across threads and processes for small writes)."""
+    if path:
+        import json
+        import os
 
-    def __init__(self, name: str, nout: int = 1):
+        data = (json.dumps(record) + '\n').encode()
+        fd = os.open(path, os.O_WRONLY | os.O_APPEND | os.O_CREAT, 0o644)
+        try:
+            os.write(fd, data)
+        finally:
+            os.close(fd)
+
+
+class Stateless(flow.Actor):
+    """``apply(*x) = app(name, none, x...)`` (per-port ``out(i, .)`` when nout > 1).
+
+    A ``None`` input (the way pyfunc hands "no entry" to the head task) is dropped.  With ``log`` every result is
+    appended to that file so that any backend (threads, processes) can be observed from outside.
+    """
+
+    def __init__(self, name: str, nout: int = 1, log: typing.Optional[str] = None):
         self.name = name
         self.nout = nout
+        self.log = log
         self.state: typing.Optional[Term] = None
 
     def apply(self, *features):
-        result = Term('app', self.name, self.state or NONE, *(term(f) for f in features))
+        result = Term('app', self.name, self.state or NONE, *(term(f) for f in features if f is not None))
+        _log(self.log, {'n': self.name, 'k': 'apply', 'dg': result.dg})
         if self.nout > 1:
             return tuple(Term('out', i, result) for i in range(self.nout))
         return result
 
     def get_params(self):
-        return {'name': self.name, 'nout': self.nout}
+        return {'name': self.name, 'nout': self.nout, 'log': self.log}
 
     def set_params(self, **params):
         for key, value in params.items():
@@ -123,6 +143,7 @@ class Stateful(Stateless):
 
     def train(self, features, labels, /):
         self.state = Term('fit', self.name, self.state or NONE, term(features), term(labels))
+        _log(self.log, {'n': self.name, 'k': 'train', 'dg': self.state.dg})
 
     def get_state(self) -> bytes:
         return pickle.dumps(self.state) if self.state is not None else b''
@@ -132,8 +153,8 @@ class Stateful(Stateless):
             self.state = unstate(state)
 
 
-def builder(name: str, stateful: bool = False, nout: int = 1) -> 'flow.Builder':
-    return (Stateful if stateful else Stateless).builder(name=name, nout=nout)
+def builder(name: str, stateful: bool = False, nout: int = 1, log: typing.Optional[str] = None) -> 'flow.Builder':
+    return (Stateful if stateful else Stateless).builder(name=name, nout=nout, log=log)
 
 
 def strip_out(value: typing.Any) -> Term:
